@@ -18,6 +18,7 @@ type Rec struct {
 	Evals    int64               `json:"evaluations"`
 	NT       map[uint64]struct{} `json:"-"`
 	NTList   []uint64            `json:"nontrivial_hashes"`
+	NTCount  int64               `json:"nontrivial_count"`
 	Classes  map[string]int64    `json:"classes"`
 	Samples  []interface{}       `json:"samples"`
 	KFSeen   map[string]int64    `json:"kf_seen"`
@@ -79,6 +80,10 @@ func (r *Rec) NonTrivial(key string) {
 	r.NT[Hash(key)] = struct{}{}
 	r.mu.Unlock()
 }
+
+// AddNT adds n non-trivial cases that are distinct by construction (disjoint
+// enumeration ranges of a sweep), counted numerically instead of by hash.
+func (r *Rec) AddNT(n int64) { r.mu.Lock(); r.NTCount += n; r.mu.Unlock() }
 
 func (r *Rec) Class(c string, n int64) { r.mu.Lock(); r.Classes[c] += n; r.mu.Unlock() }
 func (r *Rec) Add(k string, n int64)   { r.mu.Lock(); r.Extra[k] += n; r.mu.Unlock() }
@@ -179,4 +184,37 @@ func KFOpen(id string) bool {
 		}
 	})
 	return kfOpen[id]
+}
+
+// SaveReplay writes a readable replay file for a failing case of a
+// non-rapid (sweep) check; run.py copies it under /verif/replays/<id>/.
+func SaveReplay(prop string, v interface{}) string {
+	dir := os.Getenv("VERIF_REPLAY_OUT")
+	if dir == "" {
+		return ""
+	}
+	os.MkdirAll(dir, 0o755)
+	b, _ := json.MarshalIndent(v, "", " ")
+	p := filepath.Join(dir, fmt.Sprintf("%s-%d.json", prop, os.Getpid()))
+	if _, err := os.Stat(p); err == nil {
+		return p // keep the first
+	}
+	os.WriteFile(p, b, 0o644)
+	return p
+}
+
+// LoadReplay reads the replay file named by VERIF_REPLAY into v; false if unset.
+func LoadReplay(v interface{}) bool {
+	p := os.Getenv("VERIF_REPLAY")
+	if p == "" {
+		return false
+	}
+	b, err := os.ReadFile(p)
+	if err != nil {
+		panic(err)
+	}
+	if err := json.Unmarshal(b, v); err != nil {
+		panic(err)
+	}
+	return true
 }
